@@ -25,6 +25,15 @@ CLAIMED = {
  'C11': dict(cat='proof', ref='DESIGN.md §4 C11',
    text='findOutputs/findOutputsMap/findOutputsList are proved to return stripF(obj) and selF(obj) (selection order: map first, children by ascending key; list children then the list), filterOutput* to return hideF(obj), and outputDocument to return exactly emitF(candidates) with the root fallback and per-candidate hiding, for all trees; specs written from the property statement.',
    note='Stated for trees in which no list holds a map carrying $output together with other keys (the code rejects those with "extra keys" - recorded as finding F15 in DESIGN.md; the error behaviour itself is proved); sortedMap is modelled by its assumed contract (ascending keys, each once); stripF/hideF/finF/selF are characterised by one defining axiom each.'),
+ 'C06': dict(cat='proof', ref='DESIGN.md §4 C06',
+   text='One pass-through clause per evaluation stage, proved for all trees whose keys and strings do not start with a single $ (plain data and data with doubled dollars both qualify) and that are nested less deep than the recursion guard: process1* and process2* return dropF(obj) (only nulls dropped) without error, findOutputs selects nothing and returns the tree, filterOutput returns dropF(obj), validate accepts, finalizeString is exactly ReplaceAll("$$","$") and finalizeOutput applies it to every key and string value (finF).',
+   note='Not proved: the composition into one end-to-end statement (unesc(dbl s) = s is a string induction the solvers do not do; it is stated in DESIGN.md as a bounded lemma and not claimed here); repeatDoc and Document.Process are not under a functional contract; height/rank are uninterpreted measures with child-smaller-than-parent axioms.'),
+ 'C15': dict(cat='other', ref='DESIGN.md §4 C15',
+   text='The round trip is the postcondition itself: for every "$"-free, null-free target and any base, diff/diffMap/diffMapMap/diffList are proved to return nil exactly when target = base, and otherwise a layer L with not mergeErr(base, L) and mergeF(base, L) = target - the same mergeF/mergeErr that merge is proved against in C01 - outside the classes of finding F13 (kindBad: a container changing kind where the merge rules reject the override).',
+   note='diffListList is under an ASSUMED contract (trusted, body not verified) that only covers list pairs that are equal or fall back to whole-list $replace; entry-level list patches (added/deleted map entries, reordering, duplicates, partial-match deletes) are not claimed - they are finding F13; reflect.DeepEqual is modelled as structural equality; main/diffDoc ($match: {}) are not under contract.'),
+ 'C16': dict(cat='proof', ref='DESIGN.md §4 C16',
+   text='intersect/intersectMap/intersectMapMap/intersectList/intersectListList are proved to return interF(a,b) (a map keeps exactly the keys present in both, equal scalars are kept, present-in-both-but-different becomes "$required", lists keep the entries of the first that occur in the second, each once) and, as a separate clause proved by the code's own recursion, intersect(a,a) = a.',
+   note='The left fold over the input files in main and the lossless-migrate composition with bkld (C15, whose list case is assumed) are not proved; reflect.DeepEqual is modelled as structural equality.'),
  'C17': dict(cat='proof', ref='DESIGN.md §4 C17',
    text='required/requiredMap/requiredList are proved to return exactly reqF(obj), the spec of the $required skeleton written from the property statement, for all trees and all map iteration orders.',
    note='Assumed: reqF is characterised by one spec axiom; list lemmas appNil/snocApp are proved by their own induction obligations in the same run; main() of bklr and the codecs are not under contract.'),
